@@ -9,6 +9,7 @@ import (
 	"go/constant"
 	"go/token"
 	"go/types"
+	"reflect"
 	"unsafe"
 
 	"golang.org/x/tools/go/ssa"
@@ -871,6 +872,21 @@ func concreteConv(t_dst, t_src types.Type, x value) value {
 			// To at least preserve type-safety, we'll
 			// just return the zero value of the
 			// destination type.
+			//
+			// verif: a pointer that merely travels through unsafe.Pointer and comes back at
+			// the type of what its slot holds (atomic.Pointer[T], sync.Map) is the same slot;
+			// any other reinterpretation of memory is refused, not guessed.
+			if pt, isPtr := ut_dst.(*types.Pointer); isPtr {
+				p := x.(unsafe.Pointer)
+				if p == nil {
+					return (*value)(nil)
+				}
+				slot := (*value)(p)
+				if sameRepr(zero(pt.Elem()), *slot) {
+					return slot
+				}
+				panic(unsupported{"reinterpreting memory through unsafe.Pointer as " + t_dst.String()})
+			}
 			return zero(t_dst)
 		}
 
@@ -1091,4 +1107,20 @@ func fandbits[F floaty](x, y F) F {
 		*(*uint64)(unsafe.Pointer(&x)) &= *(*uint64)(unsafe.Pointer(&y))
 	}
 	return x
+}
+
+// sameRepr reports whether v is represented like z, the zero value of some type.
+func sameRepr(z, v value) bool {
+	if _, sym := v.(*Term); sym {
+		return scalarValue(z)
+	}
+	if zs, ok := z.(structure); ok {
+		vs, ok := v.(structure)
+		return ok && len(vs) == len(zs)
+	}
+	if za, ok := z.(array); ok {
+		va, ok := v.(array)
+		return ok && len(va) == len(za)
+	}
+	return reflect.TypeOf(z) == reflect.TypeOf(v)
 }
